@@ -622,7 +622,10 @@ class Result(JsonSerializable):
 
         if self._update_type_code == Result.MISCTYPE:
             # For MISCTYPE we just replaced current values with the values from
-            # other
+            # other. A result that was never updated has no value that could
+            # replace the current one.
+            if other.num_updates == 0:
+                return
             self.num_updates = other.num_updates
             self._value = other._value
             self._total = other._total
